@@ -16,6 +16,10 @@ CLAIMED = {
          "Not decided: byte-level validity of printed scalars, key-set equality through defer filters, walkObject body (assumed contract), end-to-end projection equality, termination of the tree recursion. Known finding F6 (Int accepts 1.5)."),
  "C06": ("Deductive proof of the per-level accept/reject guards of variables validation: required variable absent/null rejected, explicit null for a non-null input field rejected even with a default (defect F4/F5 found by this obligation and fixed), absent field with default accepted, list needs array, scalar kind table for String/Float/Boolean/ID/Int/enum/input object as iff-contracts over an abstract JSON view, errors are sticky, path stack restored, oneOf violations reported, content not echoed when disabled.",
          "Not decided: the induction that composes the per-level guards into accept<=>coercible for nested values (paper lemma), custom scalars, the walker. Known finding: Int accepts 1.5."),
+ "C12": ("Typestate proof (for all inputs and, via the lock/flag discipline of DESIGN §2.7, all schedules) that every use of a subscription's writer happens inside one writeMu critical section that first observed removed == false (guarded-field obligations at every load; defect F8 in complete()/error() found by them and fixed), that removed is monotone, that close(completed) happens only in done(), under writeMu, with the close permission created by the winning CompareAndSwap and carried through removeSubscriptionLocked/detachTriggerLocked/closeSubs (closed exactly once), and that every updater callback runs under updater.mu after reading done == false.",
+         "Not decided: delivered == filter(events) as sequences, content of each message, heartbeat timing; the WaitGroup fan-out of handleTriggerUpdate is an assumed contract. Interleavings are not explored."),
+ "C13": ("Proof that registry maintenance and reporter counters move only under Resolver.mu (defect F9 in markTriggerInitialized found by this obligation and fixed), that every trigger cancel function obtained from a detached/emptied trigger is invoked, after the lock is released, on every path, that close permissions flow from removal to closeSubs without duplication (distinctness invariants through append), and that locks are balanced on every path.",
+         "Not decided: the cardinality invariant (counts == map sizes), quiescence as a history property, start-once, trigger id hashing, goroutine leaks."),
  "C16": ("Deductive proof of the storability clause on caching.TTL (public, no refusal directive, s-maxage before max-age before default, positive lifetime, int32 seconds never overflow), of the cache-control lexer (bounds, termination) and of 'refusal directives are never lost / public is never invented' through parseIdent and parse (ghost flags).",
          "Not decided: transparency of hits over request histories; Loader.responseCache* functions (contracts pending); fieldNamesArgument is assumed (range-over-func)."),
  "C14": ("Request side: proved chain isFetchAuthorizedFromCache (functional contract with quantified loop invariant over the seeded deny map) -> isFetchAuthorized -> validatePreFetch -> prepareSingleFetch (denied => skipLoad) -> loadPhase (skipLoad => executeSourceLoad is not called), plus the decision key as an uninterpreted-hash term of all three components.",
